@@ -103,10 +103,11 @@ def scenarios(tier):
                     elif nb == "oom":
                         pipes.append(dict(prio="I", arrival=1, alloc=8, cpu=1, parents=[[], [0]], ops=[[dict(cpu=dur(1, tps), scaling="const", mem=1, read=0)],
                                                                                                        [dict(cpu=dur(2, tps), scaling="const", mem=9, read=0)]]))
-                    horizon = min(life * 3 + 3 * d + 6, 40)
+                    want = life * 3 + 3 * d + 6
+                    horizon = min(want, 48)
                     out.append(dict(name=f"F2-tps{tps}-a{alloc}-{'x'.join(map(str, shape))}-{nb}", tps=tps, pools=1, cpus=3, ram=pool_ram,
                                     overcommit=False, multi=True, horizon=horizon, pipelines=pipes,
-                                    expect_all_done=(nb != "oom"), done_within_deviations=1))
+                                    expect_all_done=(nb != "oom" and want <= 48), done_within_deviations=1))
     # trios: three two-operator containers that reach their operator boundary in the same tick, so that
     # several suspensions can be requested together and several write-outs can end in the same tick
     for tps, allocs in ((2, (25, 25, 64)), (2, (25, 64, 25)), (2, (64, 25, 25)), (4, (12, 12, 30)), (10, (4.3, 4.3, 20.3))):
